@@ -30,7 +30,7 @@ ASSUMPTIONS = [
 BOUNDS = {"quick": "topologies (batteries x inverters per group): 1x1, 2 groups of 1x1, 2x1 (shared inverter), 1x2 (shared battery), mixed (2x1 | 1x2); adjust_power True and False",
           "thorough": "quick + 3 groups of 1x1, (2x2)"}
 OUTSIDE = "more than 3 groups, more than 2 batteries/inverters per group; missing metrics; IEEE rounding"
-BUDGET = {"quick": 400, "thorough": 1800}
+BUDGET = {"quick": 600, "thorough": 1200}
 
 BM = [M.POWER_INCLUSION_LOWER_BOUND, M.POWER_EXCLUSION_LOWER_BOUND, M.POWER_EXCLUSION_UPPER_BOUND, M.POWER_INCLUSION_UPPER_BOUND]
 IM = [M.ACTIVE_POWER_INCLUSION_LOWER_BOUND, M.ACTIVE_POWER_EXCLUSION_LOWER_BOUND, M.ACTIVE_POWER_EXCLUSION_UPPER_BOUND, M.ACTIVE_POWER_INCLUSION_UPPER_BOUND]
